@@ -24,14 +24,14 @@ pub enum LogEv {
     Poll { t: u64, hit: bool },
     Ev { t: u64, json: String },
     Frame { t: u64, k: u64, total: usize },
-    Stop { t: u64 },
+    Stop { t: u64, why: String },
     Budget,
 }
 
 impl LogEv {
     pub fn time_us(&self) -> u64 {
         match self {
-            LogEv::Connect { t, .. } | LogEv::Rd { t, .. } | LogEv::Poll { t, .. } | LogEv::Ev { t, .. } | LogEv::Frame { t, .. } | LogEv::Stop { t } => *t,
+            LogEv::Connect { t, .. } | LogEv::Rd { t, .. } | LogEv::Poll { t, .. } | LogEv::Ev { t, .. } | LogEv::Frame { t, .. } | LogEv::Stop { t, .. } => *t,
             LogEv::Budget => 0,
         }
     }
@@ -60,7 +60,7 @@ pub fn parse_log(text: &str) -> Vec<LogEv> {
             "POLL" => v.push(LogEv::Poll { t, hit: rest.first() == Some(&"1") }),
             "EV" => v.push(LogEv::Ev { t, json: parts.get(3).unwrap_or(&"").to_string() }),
             "FRAME" => v.push(LogEv::Frame { t, k: rest.first().and_then(|s| s.parse().ok()).unwrap_or(0), total: kv(&rest, "total") }),
-            "STOP" => v.push(LogEv::Stop { t }),
+            "STOP" => v.push(LogEv::Stop { t, why: parts.get(3).unwrap_or(&"").to_string() }),
             "BUDGET" => v.push(LogEv::Budget),
             _ => {}
         }
@@ -158,7 +158,7 @@ impl simcore::Engine for ClientEngine {
     fn expected_probes(&self) -> Vec<&'static str> {
         match self.prop {
             "C16" => vec!["read_timeout_hit", "several_segments_in_one_read", "eof_seen_by_client", "airplanes_table_judged", "whole_feed_processed_at_end", "reconnect_with_aircraft_retained", "clean_exit_on_disconnect", "1090_output_equals_feed"],
-            "C17" => vec!["three_events_in_one_poll_window", "quit_during_connect_wait", "drag_event", "enter_on_airplanes_tab", "down_on_airplanes_tab", "aircraft_expire_during_run", "quit_consumed_and_clean_exit", "invalid_command_line_judged"],
+            "C17" => vec!["three_events_in_one_poll_window", "quit_during_connect_wait", "drag_event", "enter_on_airplanes_tab", "down_on_airplanes_tab", "aircraft_expire_during_run", "quit_consumed_and_clean_exit", "invalid_command_line_judged", "operator_events_after_reconnect"],
             "C18" => vec!["airplanes_tab_judged", "stats_tab_judged", "map_tab_judged", "receiver_marker_at_centre", "aircraft_label_found", "aircraft_in_ne_quadrant", "aircraft_in_nw_quadrant", "aircraft_in_se_quadrant", "aircraft_in_sw_quadrant", "proportionality_judged", "details_filled", "details_blank", "row_selected_shifted_columns", "aircraft_expired_from_table", "map_compared_before_controls_and_after_reset", "table_unchanged_after_view_controls"],
             _ => vec![],
         }
@@ -173,7 +173,7 @@ impl simcore::Engine for ClientEngine {
     fn rule(&self) -> String {
         match self.prop {
             "C16" => "seed -> feed of 3..40 lines for 1..5 addresses (well-formed DF17/DF18 identification/position/velocity, DF11/DF4/DF5 replies, upper/lower case; malformed classes: empty, ';', '*;', too short, odd digits, non-hex, non-ASCII, invalid UTF-8, all-zero, undecodable DF, truncated frame, over-long garbage) -> segmentation (line aligned, many lines per segment, random mid-line cuts, one-byte segments, cuts before ';' / newline) with gaps from {0,1,49,50,51,60,200,5000} ms around the 50 ms read timeout, coalescing coins, processing delays, EINTR, FIN/RST at line boundaries or mid-line, refused/timed-out connects and several sessions with --retry-tcp; client = radar (pty, F3 pressed periodically, q at the end) or 1090 (stdout captured). Every 10th run has all fault kinds off. Non-trivial = at least one fault fired and one probe reached; distinct = fingerprint of seam log + terminal output.".to_string(),
-            "C17" => "seed -> option set (touchscreen, the five disable flags, limit-parsing, retry-tcp, max-range, scale, filter-time 0..120 s, 0..3 locations) x terminal size {1x1 .. 300x100} x benign traffic of 0..6 aircraft that expire during the run x 5..80 operator events over the full alphabet (function keys, Tab, arrows, Enter, toggles, zoom, keys with modifiers, mouse down/up/drag/scroll/move at tab hit-boxes, touchscreen buttons, row 0 and beyond the screen, resizes, focus, paste), several per poll window, refused connects first, slow iterations; quit (q or ctrl-c) at a random point incl. during the connect wait. 8 % of the faulted runs instead start radar with one invalid option value and look only at the exit status. Non-trivial = at least one fault kind fired (resize, mouse, tiny terminal, refused connect, slow iteration, invalid value) and one probe reached; distinct = fingerprint of seam log + terminal output.".to_string(),
+            "C17" => "seed -> option set (touchscreen, the five disable flags, limit-parsing, retry-tcp, max-range, scale, filter-time 0..120 s, 0..3 locations) x terminal size {1x1 .. 300x100} x benign traffic of 0..6 aircraft that expire during the run x 5..80 operator events over the full alphabet (function keys, Tab, arrows, Enter, toggles, zoom, keys with modifiers, mouse down/up/drag/scroll/move at tab hit-boxes, touchscreen buttons, row 0 and beyond the screen, resizes, focus, paste), several per poll window, held keys / spinning wheel (5..30 repeats), refused connects first, server drop and re-accept under --retry-tcp, slow iterations, non-ASCII location names; quit (q or ctrl-c) at a random point incl. during the connect wait. 8 % of the faulted runs instead start radar with one invalid option value and look only at the exit status. Non-trivial = at least one fault kind fired (resize, mouse, tiny terminal, refused connect, slow iteration, invalid value) and one probe reached; distinct = fingerprint of seam log + terminal output.".to_string(),
             "C18" => "seed -> terminal 110..200 x 40..60, filter-time {2,3,1000} s, location markers at the receiver and at offsets d / 2d on each axis, 1..6 aircraft placed in all four quadrants at distinct latitude offsets (identification, position pairs, velocity; one line per segment >= 120 ms apart, some stop early and expire), label toggles. Phase A: tab switches and toggles interleaved with the traffic; phase B (traffic over): zoom / pan / drag / scroll / centre-on-selected-aircraft sequence, reset, then Airplanes, Stats and Map again. Reference = real tracker driven at exactly the virtual times of the child's seam log (every RD and every prune). Non-trivial = at least one fault kind fired (expiry while displayed, view-control sequence) and one probe reached.".to_string(),
             _ => String::new(),
         }
